@@ -53,21 +53,34 @@ let out_of = function
 let run (input : S.t) (observed : S.t) : S.t * string =
   (* (reuse) tells the harness to resolve parsed subscription requests again instead of parsing anew:
      the specification does not know the difference *)
-  let h = match input with
-    | S.L (S.A "hist" :: ops) -> List.map op_of (List.filter (function S.L [S.A "reuse"] | S.L (S.A "subfail" :: _) -> false | _ -> true) ops)
-    | _ -> failwith "c19: input" in
+  let ops = match input with S.L (S.A "hist" :: ops) -> ops | _ -> failwith "c19: input" in
+  let h = List.map op_of (List.filter (function S.L [S.A "reuse"] | S.L [S.A "share"] | S.L (S.A "subfail" :: _) -> false | _ -> true) ops) in
+  (* (share): the subscribers of one pattern are one Go value; its clean-up cannot tell for which
+     subscription it is called, the harness logs it under the pattern (1000+pattern+1): the clean-ups the
+     model expects are renamed the same way (still one per subscription that is cleaned up) *)
+  let share = List.exists (function S.L [S.A "share"] -> true | _ -> false) ops in
+  let pat_of = Hashtbl.create 16 in
+  List.iter (function
+      | S.L (S.A "sub" :: subs) -> List.iter (function S.L [S.A "s"; u; p; _; _] -> Hashtbl.replace pat_of (S.int u) (S.int p) | _ -> ()) subs
+      | _ -> ()) ops;
+  let lead u = if share then nat_of_int (1000 + (try Hashtbl.find pat_of (int_of_nat u) with Not_found -> 0) + 1) else u in
+  let rename = function
+    | RPub po -> RPub { po with p_clean = List.map lead po.p_clean }
+    | RUnsub (c, cl) -> RUnsub (c, List.map lead cl)
+    | x -> x in
   let expected =
     match Model.run [] h with
     | None -> S.L [S.A "panic"]
-    | Some (_, xs) -> S.L (List.map sexp_of_out xs) in
+    | Some (_, xs) -> S.L (List.map (fun x -> sexp_of_out (rename x)) xs) in
   (* oracle: the abstract registry (specification) and the trace predicate, on the code's outputs *)
   let verdict =
     match observed with
     | S.L [S.A "panic"] -> "fails:panic"
     | S.L obs ->
       let (_, axs) = Model.a_run [] h in
-      let spec = S.L (List.map sexp_of_out axs) in
+      let spec = S.L (List.map (fun x -> sexp_of_out (rename x)) axs) in
       if S.to_string spec <> S.to_string observed then "fails:differs-from-abstract-registry"
+      else if share then "holds" (* equal to the specification's outputs, whose trace is well-formed by C19_cleanup_once_nothing_after *)
       else if not (Model.trace_okb [] (Model.trace (List.map out_of obs))) then "fails:delivery-or-cleanup-after-cleanup"
       else "holds"
     | _ -> "fails:malformed-observation" in
